@@ -82,7 +82,14 @@ Definition der_s_value (sig : bytes) : N :=
   let lenR := N.to_nat (nthn 3 sig) in
   let lenS := N.to_nat (nthn (5 + lenR) sig) in
   be_decode (firstn lenS (skipn (lenR + 6) sig)).
-Definition low_s (sig : bytes) : bool := 2 * der_s_value sig <=? secp256k1_order.
+Definition der_r_value (sig : bytes) : N :=
+  let lenR := N.to_nat (nthn 3 sig) in
+  be_decode (firstn lenR (skipn 4 sig)).
+(* Core's CheckLowS: lax parse, then secp256k1_ecdsa_signature_normalize; a signature whose r or s is not below
+   the group order parses to the zero signature, which is not "high" (it simply fails to verify later) *)
+Definition low_s (sig : bytes) : bool :=
+  (secp256k1_order <=? der_r_value sig) || (secp256k1_order <=? der_s_value sig) ||
+  (2 * der_s_value sig <=? secp256k1_order).
 
 Definition hash_type_of (sig : bytes) : N := b2n (last sig x00).
 Definition defined_hashtype (sig : bytes) : bool :=
